@@ -11,12 +11,36 @@ kind of ending, same events, same environment), and runs that are cut off by the
 final TAPE and POINTER are not preserved (pending operations at the end of the program are dropped,
 `Program { shift: 0 }`): see `tape_not_preserved`.
 
-STAGE 1 (this file, so far): blocks without `loop` / `ifnz`.
+STAGE 1: blocks without `loop` / `ifnz`.
 * `optimizeOnce_straightline` : one round, any previous analysis, any oracle.
 * `optimize_straightline_level1` : `Opt.optimize b 1 orders = .ok b'`.
+
+STAGES 2-3: ALL blocks, one round started WITHOUT previous analysis (`topAnalysis [] []`), which is what
+`Program::optimize` does first and all it does at level 1.  Hypotheses: the cell width is not `0`, and the
+right-hand sides of the source block are in normal form (`CanonL`), which holds for the parser's output
+(`parse_canonL'`) and for the optimizer's own output (`optimizeOnce_canonL'`).
+* `optimizeOnce_preserves_level1`, `optimize_preserves_level1` : same observable behaviour.
+* `optimizeOnce_onceOk_level1`, `optimize_onceOk_level1` : the `once` marks the optimizer puts on loops
+  (`Loop { at_least_once }`, which the emitters turn into do-while loops) are justified: no run of the emitted
+  block reaches a marked loop with a zero condition cell (`C02Emit.OnceOk`, the hypothesis of the emitter proofs).
+* `optimize_parse_level1` : both, from Brainfuck source.
+This covers nesting, `loop_or_if` (shifting and non-shifting children), `inline`, `loop_inside_if` (with the
+`cond := 0` shortcut), the wrapping `if`, `analyze_loop`, `constants_among`, `linear_among`, `loop_motion`
+(through the loop pack `Props/C01Loop.lean`, `Props/C01LoopH.lean`).
+NOT yet covered (stage 4): rounds 2 and 3 (levels 2 and 3), where the round uses the analysis of the previous
+round and is preceded by dead store elimination.
+
+FINDINGS of the proof (both confirmed on the binary from Brainfuck source, fixed in /repo and in the port):
+* F11: `loop_or_if` skipped the cells that the loop body writes but that `constants_among` had classified as
+  constant: pending operations of the parent on such a cell were neither emitted nor dropped although the emitted
+  loop overwrites the cell (all levels ≥ 1).
+* F12: completion of F11: the cell has to be emitted AND read (`emit(var); read(var)`), otherwise a grandparent
+  that knows the cell as a constant keeps forwarding the old value (levels 2, 3).
+
 The proofs are in `Hpbf/Proofs/OptRb*.lean` (map: `Hpbf/Proofs/OptRb.README.md`).
 -/
 import Hpbf.Proofs.OptRbEx
+import Hpbf.Proofs.OptRbTop1
 
 namespace Hpbf
 namespace OptProof
@@ -56,6 +80,48 @@ theorem optimize_straightline_level1 {b b' : Block w} (hb : StraightLine b) {ord
   obtain ⟨anal, h⟩ := h
   exact rebuild_straightline hb _ h env
 
+/-! ### stages 2-3: all blocks, first round (level 1) -/
+
+/-- The normal-form hypothesis holds for everything the parser produces … -/
+theorem parse_canonL' {src : List Kind} {b : Block w} (h : Ir.parse (w := w) src = .ok b) : CanonL b.insts :=
+  parse_canonL h
+
+/-- … and for everything the optimizer produces from such a block. -/
+theorem optimizeOnce_canonL' {b : Block w} {prevAnal : OptAnalysis w} {os os' : Orders} {b' : Block w}
+    {anal' : OptAnalysis w} (hr : (optimizeOnce b prevAnal).run os = .ok ((b', anal'), os'))
+    (hcl : CanonL b.insts) : CanonL b'.insts :=
+  optimizeOnce_canonL hr hcl
+
+/-- One optimizer round started without previous analysis: same observable behaviour, for every oracle and
+every environment. -/
+theorem optimizeOnce_preserves_level1 (hw : 0 < w) {b : Block w} (hcl : CanonL b.insts)
+    {os os' : Orders} {b' : Block w} {anal' : OptAnalysis w}
+    (hr : (optimizeOnce b (topAnalysis [] [])).run os = .ok ((b', anal'), os')) (env : Env) :
+    BehEq b b' env :=
+  optimizeOnce_preserves_l1 hw hcl hr env
+
+/-- … and the `once` marks of the emitted loops are justified. -/
+theorem optimizeOnce_onceOk_level1 (hw : 0 < w) {b : Block w} (hcl : CanonL b.insts)
+    {os os' : Orders} {b' : Block w} {anal' : OptAnalysis w}
+    (hr : (optimizeOnce b (topAnalysis [] [])).run os = .ok ((b', anal'), os')) (env : Env) :
+    C02Emit.OnceOk b' env :=
+  optimizeOnce_onceOk_l1 hw hcl hr env
+
+/-- `Program::optimize` at level 1. -/
+theorem optimize_preserves_level1' (hw : 0 < w) {b b' : Block w} (hcl : CanonL b.insts) {orders : Orders}
+    (h : Opt.optimize b 1 orders = .ok b') (env : Env) : BehEq b b' env :=
+  optimize_preserves_level1 hw hcl h env
+
+theorem optimize_onceOk_level1' (hw : 0 < w) {b b' : Block w} (hcl : CanonL b.insts) {orders : Orders}
+    (h : Opt.optimize b 1 orders = .ok b') (env : Env) : C02Emit.OnceOk b' env :=
+  optimize_onceOk_level1 hw hcl h env
+
+/-- From Brainfuck source: parse, then optimize at level 1. -/
+theorem optimize_parse_level1 (hw : 0 < w) {src : List Kind} {b b' : Block w}
+    (hp : Ir.parse (w := w) src = .ok b) {orders : Orders} (h : Opt.optimize b 1 orders = .ok b')
+    (env : Env) : BehEq b b' env ∧ C02Emit.OnceOk b' env :=
+  ⟨optimize_preserves_level1 hw (parse_canonL hp) h env, optimize_onceOk_level1 hw (parse_canonL hp) h env⟩
+
 /-! ### the hypotheses are satisfiable -/
 
 section Examples
@@ -89,6 +155,67 @@ example : BehEq exB exB' envAB :=
 example : C01.traceOf (Ir.run exB false 0 20 envAB) = [.out 2, .out 66, .out 1, .inp 65] := by decide
 example : C01.traceOf (Ir.run exB' false 0 20 envAB) = [.out 2, .out 66, .out 1, .inp 65] := by decide
 
+/-- `,[->++<]>.` : the multiplication loop is replaced by `x1 := 2 * x0` (loop motion, then the `cond := 0`
+shortcut; the final `x0 := 0` stays pending and is dropped). -/
+def exMulSrc : List Kind := [.inp, .open, .dec, .right, .inc, .inc, .left, .close, .right, .out]
+
+def exMul : Block 8 :=
+  { shift := 1,
+    insts := [.input 0,
+      .loop 0 0 [.calc [(0, [⟨0xff#8, []⟩, ⟨1#8, [0]⟩])], .calc [(1, [⟨2#8, []⟩, ⟨1#8, [1]⟩])]] false,
+      .output 1] }
+
+def exMul' : Block 8 :=
+  { shift := 0, insts := [.input 0, .calc [(1, [⟨2#8, [0]⟩])], .output 1] }
+
+example : Ir.parse (w := 8) exMulSrc = .ok exMul := parse_of_check (by decide +kernel)
+example : Opt.optimize exMul 1 [] = .ok exMul' := optimize_of_check (by decide +kernel)
+example : BehEq exMul exMul' envAB ∧ C02Emit.OnceOk exMul' envAB :=
+  optimize_parse_level1 (by decide) (src := exMulSrc) (parse_of_check (by decide +kernel)) (orders := [])
+    (optimize_of_check (by decide +kernel)) _
+example : C01.traceOf (Ir.run exMul false 0 400 envAB) = [.out 130, .inp 65] := by decide +kernel
+example : C01.traceOf (Ir.run exMul' false 0 400 envAB) = [.out 130, .inp 65] := by decide +kernel
+
+/-- The final tape is NOT preserved: the source program ends with `x0 = 0`, the optimized one with `x0 = 65`. -/
+theorem tape_not_preserved : ∃ (b b' : Block 8) (env : Env) (c c' : Cfg 8),
+    Opt.optimize b 1 [] = .ok b' ∧ Ir.run b false 0 400 env = .done c ∧ Ir.run b' false 0 400 env = .done c' ∧
+    c.st.tape.get 0 = 0#8 ∧ c'.st.tape.get 0 = 65#8 := by
+  cases h : Ir.run exMul false 0 400 envAB with
+  | done c =>
+    cases h' : Ir.run exMul' false 0 400 envAB with
+    | done c' =>
+      refine ⟨exMul, exMul', envAB, c, c', optimize_of_check (by decide +kernel), h, h', ?_, ?_⟩
+      · have : (match Ir.run exMul false 0 400 envAB with | .done c => c.st.tape.get 0 | _ => 1#8) = 0#8 := by
+          decide +kernel
+        rw [h] at this; exact this
+      · have : (match Ir.run exMul' false 0 400 envAB with | .done c => c.st.tape.get 0 | _ => 1#8) = 65#8 := by
+          decide +kernel
+        rw [h'] at this; exact this
+    | stopped c' =>
+      have : (match Ir.run exMul' false 0 400 envAB with | .done _ => true | _ => false) = true := by
+        decide +kernel
+      rw [h'] at this; cases this
+    | interrupted c' =>
+      have : (match Ir.run exMul' false 0 400 envAB with | .done _ => true | _ => false) = true := by
+        decide +kernel
+      rw [h'] at this; cases this
+    | outOfFuel c' =>
+      have : (match Ir.run exMul' false 0 400 envAB with | .done _ => true | _ => false) = true := by
+        decide +kernel
+      rw [h'] at this; cases this
+  | stopped c =>
+    have : (match Ir.run exMul false 0 400 envAB with | .done _ => true | _ => false) = true := by
+      decide +kernel
+    rw [h] at this; cases this
+  | interrupted c =>
+    have : (match Ir.run exMul false 0 400 envAB with | .done _ => true | _ => false) = true := by
+      decide +kernel
+    rw [h] at this; cases this
+  | outOfFuel c =>
+    have : (match Ir.run exMul false 0 400 envAB with | .done _ => true | _ => false) = true := by
+      decide +kernel
+    rw [h] at this; cases this
+
 end Examples
 
 end OptProof
@@ -96,3 +223,9 @@ end Hpbf
 
 #print axioms Hpbf.OptProof.optimizeOnce_straightline
 #print axioms Hpbf.OptProof.optimize_straightline_level1
+#print axioms Hpbf.OptProof.optimizeOnce_preserves_level1
+#print axioms Hpbf.OptProof.optimizeOnce_onceOk_level1
+#print axioms Hpbf.OptProof.optimize_preserves_level1'
+#print axioms Hpbf.OptProof.optimize_onceOk_level1'
+#print axioms Hpbf.OptProof.optimize_parse_level1
+#print axioms Hpbf.OptProof.tape_not_preserved
